@@ -47,6 +47,8 @@ pub fn judge_nocover<T: Viewed>(r: Result<T, Rec>, ex: &Expect, p: &Path) {
             oblige!(agree_until_stop(&e, &ex.log), "C02,C03:events_up_to_first_stop_equal_keep_going_run");
             oblige!(!no_stop(&e) || e.n == ex.log.n, "C01,C02:keep_going_run_is_complete");
             oblige!(stop_then_handover(&e), "C03:stop_ends_work");
+            // the same law on the log of *every* call made (a report made after a stop and then dropped is invisible in the returned error)
+            oblige!(stop_then_handover(&rec::global()), "C01,C03:no_report_is_made_after_a_stop");
             oblige!(all_under(&e, p), "C04:every_event_under_the_given_location");
             oblige!(agree_on(&e, &ex.log, |x| x.kind() == K_HANDOVER || x.kind() == K_UNEXPECTED || x.kind() == K_KIND), "C04:locations_and_actual_values");
             oblige!(agree_on(&e, &ex.log, is_missing_ev), "C04,C07,C08:missing_reports");
